@@ -8,6 +8,7 @@ from engine.runner import Acc
 from engine.util import call, chunks
 from spec import cpr as C
 from spec import frames as F
+from spec import bds_rules as BR
 from fractions import Fraction as Fr
 
 LEVEL = "exploration"
@@ -219,6 +220,68 @@ def w_frames(arg):
     return acc.res()
 
 
+def related_frames():
+    """frames one aircraft sends in a row: position reports either side of an NL boundary (the even/odd pair across it has
+    no global solution), one on the surface, velocity, identification, status, and two Comm-B replies with its address."""
+    aa = 0x4840D6
+
+    def air(lat, oe, tc=11):
+        e = C.encode(Fr(lat), Fr(13, 2), oe, False)
+        return F.es(C.me_airborne(tc, 0xC38, oe, e["yz"], e["xz"]), aa, 5, 17)
+    b = C.TRANS[38]
+    e_s = C.encode(Fr(5066, 100), Fr(13, 2), 0, True)
+    fr = [air(b - 0.012, 0), air(b + 0.012, 1), air(b + 0.02, 0), air(b - 0.02, 1), air(b + 0.03, 1, 20),
+          F.es(C.me_surface(7, 12, 1, 40, 0, e_s["yz"], e_s["xz"]), aa, 5, 17),
+          F.es(F.me(19, [(6, 3, 1), (15, 10, 121), (26, 10, 101), (38, 9, 5)]), aa, 5, 17),
+          F.es(F.me(4, [(6, 3, 3)]) | 0x04D2C31CB1C3, aa, 5, 17),
+          F.es(F.me(31, [(41, 3, 2)]), aa, 5, 17),
+          F.long_ap(20, 0x0001838, BR.valid("BDS50")[40], aa), F.long_ap(21, 0x0000AAA, BR.valid("BDS60")[40], aa)]
+    return fr
+
+
+def w_related(part):
+    """every callable over every sequence of <= 3 frames (with repetition) of one aircraft: a decoder (or the
+    pretty-printer) that remembers something about the transponder between calls must still answer every frame as it
+    answers it in isolation, and must not let anything but RuntimeError escape."""
+    import itertools
+    global TABLE
+    if TABLE is None:
+        TABLE = {t[0]: t for t in table()}
+    acc = Acc()
+    frames = related_frames()
+    names = [(name, extra) for name, f, extras, kind, guard in table() for extra in extras[:1]]
+    for name, extra in names[part::8]:
+        f = TABLE[name][1]
+        iso = {}
+        for L in (1, 2, 3):
+            for seq in itertools.product(range(len(frames)), repeat=L):
+                for k, i in enumerate(seq):
+                    acc.n += 1
+                    if name == "tell":
+                        buf = io.StringIO()
+                        with contextlib.redirect_stdout(buf):
+                            r = call(pms.tell, frames[i])
+                        r = (r[0], buf.getvalue() if r[0] == "ok" else r[1])
+                    else:
+                        r = call(f, frames[i], *extra)
+                    rr = repr(r)
+                    if r[0] == "exc" and r[1] != "RuntimeError":
+                        acc.bad("%s:%s:after_other_frames_of_the_same_aircraft" % (name, r[1]),
+                                {"kind": "related", "name": name, "extra": list(extra), "sequence": list(seq[:k + 1])})
+                        break
+                    if i not in iso:
+                        iso[i] = rr
+                    elif iso[i] != rr:
+                        acc.bad("%s:answer_depends_on_the_frames_decoded_before" % name,
+                                {"kind": "related", "name": name, "extra": list(extra), "sequence": list(seq[:k + 1])})
+                        break
+                    if r[0] == "ok" and name != "tell":
+                        from engine.util import scribble
+                        scribble(r[1])
+        acc.out.add(("related", name))
+    return acc.res()
+
+
 def w_parity(df):
     """the parity / PI field as an input in its own right: for one downlink format, both frame lengths and two
     payloads, the last 24 bits are set so that the checksum of the frame (= overlaid address or interrogator code) takes
@@ -401,6 +464,8 @@ def w_any(t):
         return w_lead(t[1])
     if t[0] == "c":
         return w_parity(t[1])
+    if t[0] == "s":
+        return w_related(t[1])
     return w_dispatch(None) if t[0] == "d" else w_frames(t[1])
 
 
@@ -412,6 +477,7 @@ def run(ctx):
     for df in range(32):
         tasks.append(("f", (0, [df], pays, ctx.thorough)))
     tasks += [("l", (df, tc)) for df in ((17, 18) if ctx.thorough else (17,)) for tc in range(32)]
+    tasks += [("s", part) for part in range(8)]
     tasks += [("c", df) for df in ((0, 4, 5, 11, 16, 17, 18, 20, 21, 24) if not ctx.thorough else range(32))]
     ctx.pmap(w_any, tasks)
     ctx.cov["functions"] = len(table())
@@ -428,6 +494,11 @@ def replay(case):
         return [("adsb.%s:%s:breakpoint_latitude" % (case["fn"], r[1] if r[0] == "exc" else "malformed_result"), case)] if bad else []
     if case["kind"] == "again":
         return stateless(case["msg"])
+    if case["kind"] == "related":
+        out = []
+        for part in range(8):
+            out += [(s_, c_) for s_, c_ in w_related(part)["viols"] if c_.get("name") == case["name"]]
+        return out
     if case["kind"] == "call":
         s = judge(case["name"], tuple(case["extra"]), case["msg"])
         if s:
